@@ -622,3 +622,7 @@ def check(run, replay=None):
     if tot and run.counters.get("inverse_margin_skipped", 0) > 0.20 * tot:
         run.inconc("inverse law: %d of %d g-vectors fell into the undecided 1e-9 margin (> 20 %%)"
                    % (run.counters.get("inverse_margin_skipped", 0), tot))
+
+
+# workloads added in seeding rounds 7-10 (DESIGN.md sections 13.9-13.12)
+LEVEL_TEXT = LEVEL_TEXT + ' Later additions: batches of 2-4 g-vectors against the big batch; detector round trips with the whole parameter dictionary (omegasign included).'
